@@ -69,7 +69,18 @@ def main():
         shutil.copy(demo, dst)
         tests = re.findall(r"^func (Test\w+)\(", demo_text, re.M)
         runpat = "^(" + "|".join(tests) + ")$"
-        rc0, out0 = sh(["go", "test"] + tags + ["-vet=off", "-count=1", "-run", runpat, "./" + d], cwd=wt)
+        # demonstrations that say they must run for another target
+        denv = ENV
+        if re.search(r"^//\s*GOARCH=386 go test", demo_text, re.M):
+            denv = dict(ENV, GOARCH="386")
+        if re.search(r"^//go:build !linux", demo_text, re.M):
+            goroot = subprocess.run(["go", "env", "GOROOT"], capture_output=True, text=True, env=ENV).stdout.strip()
+            denv = dict(ENV, GOOS="js", GOARCH="wasm")
+            helper = os.path.join(goroot, "lib", "wasm", "go_js_wasm_exec")
+            if not os.path.exists(helper):
+                helper = os.path.join(goroot, "misc", "wasm", "go_js_wasm_exec")
+            tags = tags + ["-exec", helper]
+        rc0, out0 = sh(["go", "test"] + tags + ["-vet=off", "-count=1", "-run", runpat, "./" + d], cwd=wt, env=denv)
         os.remove(dst)
         rca, outa = sh(["git", "apply", patch], cwd=wt)
         if rca != 0:
@@ -78,7 +89,7 @@ def main():
             return 2
         rcb, outb = sh("go build ./... && go test -vet=off -count=1 ./...", cwd=wt)
         shutil.copy(demo, dst)
-        rc1, out1 = sh(["go", "test"] + tags + ["-vet=off", "-count=1", "-run", runpat, "./" + d], cwd=wt)
+        rc1, out1 = sh(["go", "test"] + tags + ["-vet=off", "-count=1", "-run", runpat, "./" + d], cwd=wt, env=denv)
         os.remove(dst)
         result.update(demo_passes_without=(rc0 == 0), suite_passes_with=(rcb == 0), demo_fails_with=(rc1 != 0))
         result["confirmed"] = rc0 == 0 and rcb == 0 and rc1 != 0
